@@ -20,7 +20,7 @@ static json edge(long long v) {
 
 struct C06 : RBase {
   const char* id() const override { return "C06"; }
-  long budget(const std::string& tier) const override { return tier == "thorough" ? 400000 : 6000; }
+  long budget(const std::string& tier) const override { return tier == "thorough" ? 400000 : 10000; }
   std::string rule() const override {
     return "plan = generated program with loop nests up to depth 3 plus 2..5 lattice loops: for-headers with first/limit in {INT64_MIN, MIN+1, -2..2, MAX-2..MAX} (equal, reversed, "
            "near the edges so that at most 12 iterations happen), step in {absent, null, 0, -1, 1, 2, 3, MAX}, asc/desc/auto, null bounds, one header expression with a visible side "
